@@ -1,7 +1,7 @@
 (* C17 — Character classes of a code point are the union of all definitions covering it.
    This file holds only the property theorems; each is closed by `exact` of a lemma proved elsewhere. *)
 From Coq Require Import List NArith.
-From SudachiVerif Require Import Model.CharCat Proofs.CharCatProofs.
+From SudachiVerif Require Import Model.CharCat Proofs.CharCatProofs Model.CharDefText Proofs.CharDefTextProofs.
 Open Scope N_scope.
 
 (* every definition list with begin < end per line compiles (the `panic!` of compile is unreachable) *)
@@ -29,3 +29,18 @@ Theorem C17_iter_none_iff_default :
   forall rs cc, (forall r, In r rs -> rb r < re r) -> compile rs = Some cc -> (iter cc = None <-> rs = nil).
 Proof. exact iter_none_iff_default. Qed.
 Print Assumptions C17_iter_none_iff_default.
+
+(* From the TEXT of the definition file (model of read_character_definition: lines, trimming, "0x" lines only, hex ranges,
+   begin < end, scalar-value checks, class names up to a '#'): every file the reader accepts yields ranges that satisfy the
+   hypothesis above, so for every accepted file and every code point the looked-up classes are the union of the covering
+   lines (ASCII definition lines with plain class names; anything else is outside the model and only tested). *)
+Theorem C17_loaded_file_is_wf :
+  forall text rs, read_character_definition text = POk rs -> forall r, In r rs -> rb r < re r.
+Proof. exact loaded_file_is_wf. Qed.
+Print Assumptions C17_loaded_file_is_wf.
+
+Theorem C17_file_lookup_is_union :
+  forall text rs, read_character_definition text = POk rs ->
+    exists cc, compile rs = Some cc /\ forall c, lookup cc c = spec rs c.
+Proof. exact file_lookup_is_union. Qed.
+Print Assumptions C17_file_lookup_is_union.
